@@ -28,15 +28,16 @@ def datetime_isostring(date, keep_microseconds=False):
     date -- date object
     keep_microseconds -- include microseconds in iso
     """
-    utc_offset_sec = time.altzone if time.localtime().tm_isdst == 1 else time.timezone
-    utc_offset = datetime.timedelta(seconds=-utc_offset_sec)
-
     if keep_microseconds:
         date_to_format = date
     else:
         date_to_format = date.replace(microsecond=0)
 
-    return date_to_format.replace(tzinfo=datetime.timezone(offset=utc_offset)).isoformat()
+    # use the utc offset of the local time zone that is in force at the given date, which is not
+    # necessarily the offset in force right now (daylight saving time)
+    if date_to_format.tzinfo is None:
+        date_to_format = date_to_format.astimezone()
+    return date_to_format.isoformat()
 
 
 def datetime_now_isostring():
